@@ -1,5 +1,6 @@
 /- preservation of InvB: the fulfiller of an awaited object runs one of my callbacks (the step) -/
 import YaclibModel.Proofs.CoroB7
+import YaclibModel.Proofs.CoroB1
 namespace Yaclib.Coro
 
 theorem mem_erase_ne {l : List Nat} (hnd : l.Nodup) {a b : Nat} (h : a ∈ l.erase b) : a ≠ b ∧ a ∈ l :=
@@ -9,7 +10,7 @@ theorem mem_erase_of_ne' {l : List Nat} {a b : Nat} (h : a ∈ l) (hne : a ≠ b
   (List.mem_erase_of_ne hne).mpr h
 
 macro "invB_fire_auto" : tactic =>
-  `(tactic| (constructor <;> (try simp only [State.word, setWord_cells_word, setWord_todo', setWord_w'] at *) <;>
+  `(tactic| (constructor <;> (try simp only [State.word, setWord_cells_word, setWord_todo', setWord_w', setWord_pc] at *) <;>
       grind [inOp, decided, regPos, freshPc, afterRegPc, List.length_set, cbDone_decided, cbDone_regPos, cbDone_fresh, cbDone_afterReg,
         cbDone_ne_susp, cbDone_ne_rdyL, cbDone_cell, inOp_cbDone, mem_erase_ne, mem_erase_of_ne', List.Nodup.erase,
         Word.cbs, Word.isResult]))
@@ -79,7 +80,7 @@ theorem invB_step_fire {w s l s'} (hwf : w.WF) (ha : InvA w s) (hb : InvB w s) (
             by_cases hjj : j' = j
             · subst hjj; simp only [↓reduceIte, Word.cbs] at hp'
               rw [hw]; exact (mem_erase_ne hwnd hp').2
-            · simpa [hjj] using hp'
+            · simp only [hjj, ↓reduceIte] at hp'; exact hp'
           have hpne : p' ≠ p := hne j' p' hold (by intro hjj; subst hjj; simpa [Word.cbs] using hp')
           have := (hb.cbs_cell j' p' op rest hold ht).2
           apply hnp p'
@@ -95,27 +96,39 @@ theorem invB_step_fire {w s l s'} (hwf : w.WF) (ha : InvA w s) (hb : InvB w s) (
               intro h; subst h; rw [hcell] at hq; exact hjj (Option.some.inj hq).symm
             rw [List.getElem?_set_ne (Ne.symm hqp)] at hs
             exact hb.settled_res op rest q j' ht hin hq hs
-        have hpcnew : ∀ pc', (doFire s op j p walk).pc = pc' → pc' = cbDone op.kind j s.exec := by
-          intro pc' h
-          simp only [doFire] at h
+        have hpc : (doFire s op j p walk).pc = cbDone op.kind j s.exec := by
+          simp only [doFire]
           rcases hlast with h0 | h1
-          · simp [h0] at h; exact h.symm
+          · simp [h0]
           · by_cases hcn : counted op.kind = true
-            · simp [hcn, h1] at h; exact h.symm
-            · simp [hcn] at h; exact h.symm
+            · simp [hcn, h1]
+            · simp [hcn]
         have hjc : j ∈ op.cells := List.mem_iff_getElem?.mpr ⟨p, hcell⟩
-        have hpc : (doFire s op j p walk).pc = cbDone op.kind j s.exec := hpcnew _ rfl
         have hcells : (doFire s op j p walk).cells = (s.setWord j (.result (walk.erase p))).cells := by
           simp only [doFire]; split <;> (try split) <;> rfl
         have hstn : (doFire s op j p walk).st = s.st.set p .fired := by
           simp only [doFire]; split <;> (try split) <;> rfl
         have htodo : (doFire s op j p walk).todo = s.todo := by
           simp only [doFire]; split <;> (try split) <;> rfl
-        cases hb
-        constructor <;> (simp only [State.word, hpc, hcells, hstn, htodo, setWord_cells_word]) <;>
-          (try simp only [State.word] at *) <;>
-          grind [inOp, decided, regPos, freshPc, afterRegPc, cbDone_decided, cbDone_regPos, cbDone_fresh, cbDone_afterReg,
-            cbDone_ne_susp, cbDone_ne_rdyL, cbDone_cell, inOp_cbDone, List.Nodup.erase, Word.cbs, Word.isResult]
+        have hwordn : ∀ j', (doFire s op j p walk).word j' =
+            if j' = j then Word.result (walk.erase p) else (s.cells j').word := by
+          intro j'; simp only [State.word, hcells, setWord_cells_word]
+        apply invB_of_decided
+        · intro j' l' hl'
+          rw [hwordn] at hl'
+          by_cases hjj : j' = j
+          · simp [hjj] at hl'
+          · simp only [hjj, ↓reduceIte] at hl'; exact hb.foreign_unsafe j' l' hl'
+        · intro j' p' hp'; rw [hwordn] at hp'; exact hno j' p' hp'
+        · rw [hpc]; exact cbDone_decided _ _ _
+        · rw [hstn]; exact hnp
+        · intro op' rest' j' ht' hj'
+          rw [htodo, ht] at ht'; cases ht'
+          rw [hwordn]; exact hall j' hj'
+        · intro j' hj' op' rest' ht'
+          rw [htodo, ht] at ht'; cases ht'
+          rw [hpc] at hj'
+          rw [cbDone_cell _ _ _ _ hj']; exact hjc
       · -- no: a multi awaiter whose counter is still above 1; the program position does not change
         have hcn : counted op.kind = true := by
           cases h : counted op.kind with
@@ -134,7 +147,13 @@ theorem invB_step_fire {w s l s'} (hwf : w.WF) (ha : InvA w s) (hb : InvB w s) (
           intro p0 h0 hle
           have := (hb.reg_phase p0 p .pending h0 hst).mpr hle
           cases this
+        have hold_j : ∀ p', p' ∈ walk → op.cells[p']? = some j ∧ s.st[p']? = some CbSt.pending := by
+          intro p' hp'
+          exact hb.cbs_cell j p' op rest (by rw [hw]; exact hp') ht
+        have hres_j : (Word.result (walk.erase p)).isResult = true := rfl
+        have hcbs_j : (Word.result (walk.erase p)).cbs = walk.erase p := rfl
         simp only [doFire, hcn, hc1, ↓reduceIte]
+        clear hl hsingle hmulti hc hlast hwfo hne hc1 hcn
         cases hb
         invB_fire_auto
   | _ => simp at hl
